@@ -68,7 +68,7 @@ def main(argv):
     nsl = getattr(mod, 'QUERY_SLICES', 1)
     if nsl > 1: cubes = [dict(c, qslice=(i, nsl)) for c in cubes for i in range(nsl)]
     if tier == 'thorough': os.environ.setdefault('VERIF_CROSS_SOLVER', '1')   # two solvers on the cheap unsat verdicts
-    timeout_ms = int(os.environ.get('VERIF_QUERY_TIMEOUT_S', '240' if tier == 'quick' else '1500')) * 1000
+    timeout_ms = int(os.environ.get('VERIF_QUERY_TIMEOUT_S', '900' if tier == 'quick' else '2400')) * 1000
     replay_dir = os.environ.get('VERIF_CEX', os.path.join(VERIF, 'counterexamples'))
     try: harness.build_replay(has_fc)
     except Inconclusive as e:
@@ -86,6 +86,8 @@ def main(argv):
             if extra['differential']['mismatches']: inconclusive.append(f"differential validation: interpreter and real crate disagree on {extra['differential']['mismatches']} concrete cases: {json.dumps(extra['differential']['examples'])[:1500]}")
         except (Unsupported, Inconclusive) as e:
             inconclusive.append(f'differential validation failed: {e}')
+        except Exception as e:
+            inconclusive.append(f'differential validation: internal error: {e!r}\n{traceback.format_exc()[-800:]}')
     if getattr(mod, 'BUILD_PROBES', False):
         # the irregular states behind the recorded findings, produced by the real builder (ModuleGraph::build + MemoryLoader)
         try: extra['build_probes'] = harness.run_replay({'world': {'build_probes': True}, 'ops': []}, fast_check=True)
@@ -167,4 +169,7 @@ def do_replay(prop, mod, path):
     return 0
 
 if __name__ == '__main__':
-    sys.exit(main(sys.argv))
+    try: rc = main(sys.argv)
+    except Exception as e:      # a crash of the machinery is never a verdict about the code
+        traceback.print_exc(); print(f'INCONCLUSIVE: internal error: {e!r}'); rc = 2
+    sys.exit(rc)
